@@ -177,7 +177,7 @@ func VHarness_C02_InstallSnapshot() {
 
 // C02/L4 (+C18 quorums): the leader commit rule on ReplicateResp, checked
 // against a quorum count made independently of raft.matched.
-// vcheck: reach=advanced,notadvanced,done workers=16
+// vcheck: props=C18 reach=advanced,notadvanced,done workers=16
 func VHarness_C02_LeaderCommit() {
 	o := vRaftOpts{pairs: [][2]uint64{{vS3, 1}, {vS3w, 1}, {vS4, 1}, {vS5w, 1}}, log: vLogOpts{maxPers: 1, maxWin: 2, noAppliedTo: true, allSaved: true},
 		roles: []State{leader}}
